@@ -145,8 +145,9 @@ type staticSvc struct {
 }
 
 type histCase struct {
-	Static []staticSvc `json:"static"`
-	Ops    []hop       `json:"ops"`
+	Static  []staticSvc `json:"static"`
+	Ops     []hop       `json:"ops"`
+	FreeRun bool        `json:"free_run,omitempty"` // events are forwarded by a concurrent goroutine as they appear (store and controller really run concurrently)
 }
 
 var svcNames = []string{"a", "b", "c", "d"} // "d" is never a dependency in most histories ("unknown")
@@ -248,8 +249,28 @@ func checkHist(c histCase, uniq string) (inf histInfo, v *verdict) {
 		}
 		return done
 	}
+	stopFwd := make(chan struct{})
+	fwdDone := make(chan struct{})
+	if c.FreeRun {
+		go func() {
+			defer close(fwdDone)
+			for {
+				select {
+				case e := <-evtCh:
+					ctlCh <- e // an event taken from the store is always delivered
+				case <-stopFwd:
+					return
+				}
+			}
+		}()
+	} else {
+		close(fwdDone)
+	}
 	maxLag := 0
 	guard := func() bool {
+		if c.FreeRun {
+			return true
+		}
 		if l := len(evtCh); l > maxLag {
 			maxLag = l
 		}
@@ -335,6 +356,9 @@ func checkHist(c histCase, uniq string) (inf histInfo, v *verdict) {
 			}
 			store.VerifSvcEndpointUpdate(name(o.Svc), add, rem)
 		case "pace":
+			if c.FreeRun {
+				continue
+			}
 			if forward(o.N) < 0 {
 				return inf, &verdict{"controller-stuck", fmt.Sprintf("step %d: the controller did not take an event for 20s\n%s", i, vh.Stacks())}
 			}
@@ -344,6 +368,8 @@ func checkHist(c histCase, uniq string) (inf histInfo, v *verdict) {
 		inf.lag = maxLag
 	}
 	// quiescence: forward everything, then two sentinels prove the last real event was handled
+	close(stopFwd)
+	<-fwdDone
 	if forward(1<<30) < 0 {
 		return inf, &verdict{"controller-stuck", "final drain: the controller did not take an event for 20s\n" + vh.Stacks()}
 	}
@@ -563,14 +589,64 @@ func TestConverge(t *testing.T) {
 	})
 }
 
+// TestConvergeConcurrent runs short histories in which the store emits a service add event and immediately
+// keeps changing the same service while a concurrent goroutine forwards the events: store and controller race
+// as in production. Every history is executed several times.
+func TestConvergeConcurrent(t *testing.T) {
+	rapid.Check(t, func(t *rapid.T) {
+		c := histCase{FreeRun: true}
+		// long endpoint lists make both the store's in-place update and the controller's reading of the
+		// event take long enough to overlap
+		ne := rapid.SampledFrom([]int{3, 50, 1000, 3000}).Draw(t, "initial")
+		var eps []epRef
+		for i := 0; i < ne; i++ {
+			eps = append(eps, epRef{Addr: i, Backup: i%7 == 3})
+		}
+		if rapid.Bool().Draw(t, "static") {
+			c.Static = []staticSvc{{Svc: 0, Cfg: 1, Eps: eps}}
+		} else {
+			c.Ops = append(c.Ops, hop{Op: "dep", Added: []int{0}}, hop{Op: "cfg", Svc: 0, Cfg: 1}, hop{Op: "eps", Svc: 0, EpAdd: eps})
+		}
+		for i, n := 0, rapid.IntRange(1, 6).Draw(t, "n"); i < n; i++ {
+			o := hop{Op: "eps", Svc: 0, EpAdd: genEps(t, "add", 3), EpRem: genEps(t, "rem", 3)}
+			// usually remove an endpoint near the head of the list and add a new address
+			if rapid.IntRange(0, 3).Draw(t, "head") != 0 {
+				o.EpRem = append(o.EpRem, epRef{Addr: i})
+				o.EpAdd = append(o.EpAdd, epRef{Addr: 5000 + i})
+			}
+			c.Ops = append(c.Ops, o)
+		}
+		vh.CurrentCase(prop, "converge", c)
+		reps := 40
+		if ne >= 1000 {
+			reps = 8
+		}
+		for rep := 0; rep < reps; rep++ {
+			if _, v := checkHist(c, "svc-"); v != nil {
+				vh.ClearCurrentCase()
+				vh.Fail(t, vh.Failure{Property: prop, Part: "converge", Signature: v.sig, Message: v.msg, Case: c})
+			}
+		}
+		vh.ClearCurrentCase()
+		vh.Rec().Case("converge-concurrent", true, vh.JSON(c))
+		vh.Rec().Sample("converge-concurrent", true, func() interface{} { return c })
+	})
+}
+
 func init() {
 	vh.RegisterReplay("converge", func(t *testing.T, raw json.RawMessage) {
 		var c histCase
 		if err := json.Unmarshal(raw, &c); err != nil {
 			t.Fatal(err)
 		}
-		if _, v := checkHist(c, "replay-"); v != nil {
-			vh.Fail(t, vh.Failure{Property: prop, Part: "converge", Signature: v.sig, Message: v.msg, Case: c})
+		reps := 1
+		if c.FreeRun {
+			reps = 2000
+		}
+		for i := 0; i < reps; i++ {
+			if _, v := checkHist(c, "replay-"); v != nil {
+				vh.Fail(t, vh.Failure{Property: prop, Part: "converge", Signature: v.sig, Message: v.msg, Case: c})
+			}
 		}
 	})
 }
